@@ -165,16 +165,29 @@ impl InternalTimeSyncController for Stub {
     type OneWaySourceController = RecOneWay;
 
     fn new(clock: LogClock, _s: SynchronizationConfig, _a: ()) -> Result<Self, std::io::Error> {
-        Ok(Stub { log: clock.log.clone() })
+        Ok(Stub {
+            log: clock.log.clone(),
+        })
     }
     fn take_control(&mut self) -> Result<(), std::io::Error> {
         Ok(())
     }
     fn add_source(&mut self, _id: ClockId, _c: SourceConfig) -> RecTwoWay {
-        RecTwoWay { log: self.log.clone() }
+        RecTwoWay {
+            log: self.log.clone(),
+        }
     }
-    fn add_one_way_source(&mut self, _id: ClockId, _c: SourceConfig, _n: f64, _a: f64, _p: Option<f64>) -> RecOneWay {
-        RecOneWay { log: self.log.clone() }
+    fn add_one_way_source(
+        &mut self,
+        _id: ClockId,
+        _c: SourceConfig,
+        _n: f64,
+        _a: f64,
+        _p: Option<f64>,
+    ) -> RecOneWay {
+        RecOneWay {
+            log: self.log.clone(),
+        }
     }
     fn remove_source(&mut self, _id: ClockId) {}
     fn source_update(&mut self, _id: ClockId, _usable: bool) {}
@@ -201,10 +214,20 @@ struct Rig {
 
 fn rig() -> Rig {
     let log: Log = Arc::new(Mutex::new(Vec::new()));
-    let wrapper = Wrapper::new(LogClock { log: log.clone() }, SynchronizationConfig::default(), ()).expect("wrapper");
+    let wrapper = Wrapper::new(
+        LogClock { log: log.clone() },
+        SynchronizationConfig::default(),
+        (),
+    )
+    .expect("wrapper");
     let two = wrapper.add_source(SRC, SourceConfig::default());
     let one = wrapper.add_one_way_source(ClockId(8), SourceConfig::default(), 0.0, 0.0, None);
-    Rig { log, _wrapper: wrapper, two, one }
+    Rig {
+        log,
+        _wrapper: wrapper,
+        two,
+        one,
+    }
 }
 
 fn meas(sender: ClockId, receiver: ClockId, s: u64, r: u64) -> Measurement {
@@ -238,7 +261,10 @@ fn want(t: [u64; 4]) -> Want {
     let b = wrap(t[2], t[3]);
     let c = wrap(t[3], t[0]);
     let d = wrap(t[2], t[1]);
-    Want { sum: a + b, delay: c - d }
+    Want {
+        sum: a + b,
+        delay: c - d,
+    }
 }
 
 fn fits(x: i128) -> bool {
@@ -249,13 +275,20 @@ fn judge_two_way(t: [u64; 4], got: &[Rec]) -> Vec<(&'static str, String)> {
     let mut out = Vec::new();
     let w = want(t);
     if got.len() != 1 {
-        out.push(("C05:exchange-not-delivered", format!("{} measurements delivered for one exchange", got.len())));
+        out.push((
+            "C05:exchange-not-delivered",
+            format!("{} measurements delivered for one exchange", got.len()),
+        ));
         return out;
     }
     let r = got[0];
     let g2 = 2 * r.offset as i128;
     if (g2 - w.sum).abs() > 1 {
-        let class = if fits(w.sum) { "C05:offset-formula" } else { "C05:offset-sum-saturates" };
+        let class = if fits(w.sum) {
+            "C05:offset-formula"
+        } else {
+            "C05:offset-sum-saturates"
+        };
         out.push((
             class,
             format!(
@@ -274,7 +307,10 @@ fn judge_two_way(t: [u64; 4], got: &[Rec]) -> Vec<(&'static str, String)> {
         Some(d) => {
             if fits(w.delay) {
                 if d as i128 != w.delay {
-                    out.push(("C05:delay-formula", format!("delay {d} but (T4-T1)-(T3-T2) = {}", w.delay)));
+                    out.push((
+                        "C05:delay-formula",
+                        format!("delay {d} but (T4-T1)-(T3-T2) = {}", w.delay),
+                    ));
                 }
             } else if (w.delay > 0 && d != i64::MAX) || (w.delay < 0 && d != i64::MIN) {
                 out.push(("C05:delay-saturation", format!("delay {d} but (T4-T1)-(T3-T2) = {} does not fit and must saturate towards its sign", w.delay)));
@@ -282,7 +318,10 @@ fn judge_two_way(t: [u64; 4], got: &[Rec]) -> Vec<(&'static str, String)> {
         }
     }
     if r.localtime != t[3] {
-        out.push(("C05:localtime", format!("localtime {:#x}, expected T4 {:#x}", r.localtime, t[3])));
+        out.push((
+            "C05:localtime",
+            format!("localtime {:#x}, expected T4 {:#x}", r.localtime, t[3]),
+        ));
     }
     out
 }
@@ -290,15 +329,31 @@ fn judge_two_way(t: [u64; 4], got: &[Rec]) -> Vec<(&'static str, String)> {
 fn judge_one_way(remote: u64, local: u64, got: &[Rec]) -> Vec<(&'static str, String)> {
     let mut out = Vec::new();
     if got.len() != 1 {
-        out.push(("C05:exchange-not-delivered", format!("{} measurements delivered for one sample", got.len())));
+        out.push((
+            "C05:exchange-not-delivered",
+            format!("{} measurements delivered for one sample", got.len()),
+        ));
         return out;
     }
     let r = got[0];
     if r.offset as i128 != wrap(remote, local) {
-        out.push(("C05:one-way-offset", format!("offset {} but remote-local = {}", r.offset, wrap(remote, local))));
+        out.push((
+            "C05:one-way-offset",
+            format!(
+                "offset {} but remote-local = {}",
+                r.offset,
+                wrap(remote, local)
+            ),
+        ));
     }
     if r.localtime != local {
-        out.push(("C05:localtime", format!("localtime {:#x}, expected local receive time {:#x}", r.localtime, local)));
+        out.push((
+            "C05:localtime",
+            format!(
+                "localtime {:#x}, expected local receive time {:#x}",
+                r.localtime, local
+            ),
+        ));
     }
     out
 }
@@ -325,8 +380,8 @@ fn alphabet(quick: bool) -> Vec<u64> {
         u64::MAX - (1 << 32) + 1, // one second before the era boundary
         EPOCH_1970,
         NOW_2026,
-        NOW_2026 + 4_294_967,       // + 1 ms
-        NOW_2026 + (3 << 32) + 5,   // + 3 s, odd distance
+        NOW_2026 + 4_294_967,     // + 1 ms
+        NOW_2026 + (3 << 32) + 5, // + 3 s, odd distance
         0x5555_5555_5555_5555,
     ];
     b.extend_from_slice(&[
@@ -382,7 +437,10 @@ fn packet_alphabet(quick: bool) -> Vec<u64> {
 }
 
 fn quad_trace(kind: &str, t: [u64; 4]) -> String {
-    format!("{kind};{:016x},{:016x},{:016x},{:016x}", t[0], t[1], t[2], t[3])
+    format!(
+        "{kind};{:016x},{:016x},{:016x},{:016x}",
+        t[0], t[1], t[2], t[3]
+    )
 }
 
 // ---------------------------------------------------------------------------------
@@ -391,14 +449,17 @@ fn quad_trace(kind: &str, t: [u64; 4]) -> String {
 
 fn two_way_once(r: &mut Rig, t: [u64; 4]) -> Vec<Rec> {
     r.log.lock().unwrap().clear();
-    r.two.handle_measurement(meas(ClockId::SYSTEM, SRC, t[0], t[1]));
-    r.two.handle_measurement(meas(SRC, ClockId::SYSTEM, t[2], t[3]));
+    r.two
+        .handle_measurement(meas(ClockId::SYSTEM, SRC, t[0], t[1]));
+    r.two
+        .handle_measurement(meas(SRC, ClockId::SYSTEM, t[2], t[3]));
     std::mem::take(&mut *r.log.lock().unwrap())
 }
 
 fn one_way_once(r: &mut Rig, remote: u64, local: u64) -> Vec<Rec> {
     r.log.lock().unwrap().clear();
-    r.one.handle_measurement(meas(ClockId(8), ClockId::SYSTEM, remote, local));
+    r.one
+        .handle_measurement(meas(ClockId(8), ClockId::SYSTEM, remote, local));
     std::mem::take(&mut *r.log.lock().unwrap())
 }
 
@@ -451,14 +512,23 @@ impl Stats {
         ctx.add("evaluations", self.cases);
         ctx.add(&format!("{p}_quadruples"), self.cases);
         ctx.add(&format!("{p}_offset_sum_even_exact"), self.even);
-        ctx.add(&format!("{p}_offset_sum_odd_rounded_toward_zero"), self.odd_toward_zero);
-        ctx.add(&format!("{p}_offset_sum_odd_rounded_down"), self.odd_floor_negative);
+        ctx.add(
+            &format!("{p}_offset_sum_odd_rounded_toward_zero"),
+            self.odd_toward_zero,
+        );
+        ctx.add(
+            &format!("{p}_offset_sum_odd_rounded_down"),
+            self.odd_floor_negative,
+        );
         ctx.add(&format!("{p}_offset_sum_exceeds_i64"), self.sum_overflow);
         ctx.add(&format!("{p}_delay_fits"), self.delay_fits);
         ctx.add(&format!("{p}_delay_negative"), self.negative_delay);
         ctx.add(&format!("{p}_delay_saturates_positive"), self.delay_sat_pos);
         ctx.add(&format!("{p}_delay_saturates_negative"), self.delay_sat_neg);
-        ctx.add(&format!("{p}_pair_straddles_era_boundary"), self.era_crossing);
+        ctx.add(
+            &format!("{p}_pair_straddles_era_boundary"),
+            self.era_crossing,
+        );
     }
 }
 
@@ -467,13 +537,49 @@ impl Stats {
 fn named_quadruples() -> Vec<(&'static str, [u64; 4])> {
     let ms = 4_294_967u64;
     vec![
-        ("in sync, 20 ms round trip", [NOW_2026, NOW_2026 + 10 * ms, NOW_2026 + 11 * ms, NOW_2026 + 20 * ms]),
-        ("client clock at the Unix epoch (no RTC), server in 2026", [EPOCH_1970, NOW_2026, NOW_2026 + ms, EPOCH_1970 + 20 * ms]),
-        ("client in 2026, server at the Unix epoch", [NOW_2026, EPOCH_1970, EPOCH_1970 + ms, NOW_2026 + 20 * ms]),
-        ("client 40 years behind", [NOW_2026 - (1_262_304_000u64 << 32), NOW_2026, NOW_2026 + ms, NOW_2026 - (1_262_304_000u64 << 32) + 20 * ms]),
-        ("client 30 years behind", [NOW_2026 - (946_728_000u64 << 32), NOW_2026, NOW_2026 + ms, NOW_2026 - (946_728_000u64 << 32) + 20 * ms]),
-        ("exchange across the 2036 era boundary", [u64::MAX - 5 * ms, u64::MAX - ms, 3 * ms, 9 * ms]),
-        ("client just before, server just after the era boundary", [u64::MAX - 5 * ms, 5 * ms, 6 * ms, u64::MAX - ms]),
+        (
+            "in sync, 20 ms round trip",
+            [
+                NOW_2026,
+                NOW_2026 + 10 * ms,
+                NOW_2026 + 11 * ms,
+                NOW_2026 + 20 * ms,
+            ],
+        ),
+        (
+            "client clock at the Unix epoch (no RTC), server in 2026",
+            [EPOCH_1970, NOW_2026, NOW_2026 + ms, EPOCH_1970 + 20 * ms],
+        ),
+        (
+            "client in 2026, server at the Unix epoch",
+            [NOW_2026, EPOCH_1970, EPOCH_1970 + ms, NOW_2026 + 20 * ms],
+        ),
+        (
+            "client 40 years behind",
+            [
+                NOW_2026 - (1_262_304_000u64 << 32),
+                NOW_2026,
+                NOW_2026 + ms,
+                NOW_2026 - (1_262_304_000u64 << 32) + 20 * ms,
+            ],
+        ),
+        (
+            "client 30 years behind",
+            [
+                NOW_2026 - (946_728_000u64 << 32),
+                NOW_2026,
+                NOW_2026 + ms,
+                NOW_2026 - (946_728_000u64 << 32) + 20 * ms,
+            ],
+        ),
+        (
+            "exchange across the 2036 era boundary",
+            [u64::MAX - 5 * ms, u64::MAX - ms, 3 * ms, 9 * ms],
+        ),
+        (
+            "client just before, server just after the era boundary",
+            [u64::MAX - 5 * ms, 5 * ms, 6 * ms, u64::MAX - ms],
+        ),
     ]
 }
 
@@ -483,7 +589,11 @@ fn run_named(ctx: &Ctx) {
     for (name, t) in named_quadruples() {
         match common::catch(|| two_way_once(&mut r, t)) {
             Err(e) => {
-                ctx.violation("C05:panic", format!("wrapper panicked: {e}"), quad_trace("w", t));
+                ctx.violation(
+                    "C05:panic",
+                    format!("wrapper panicked: {e}"),
+                    quad_trace("w", t),
+                );
                 r = rig();
             }
             Ok(got) => {
@@ -492,7 +602,12 @@ fn run_named(ctx: &Ctx) {
                     ctx.violation(class, format!("{name}: {what}"), quad_trace("w", t));
                 }
                 ctx.distinct(common::hash_of(&("w", t)));
-                ctx.sample(format!("{name}: {} -> offset {:?} delay {:?}", quad_trace("w", t), got.first().map(|r| r.offset), got.first().and_then(|r| r.delay)));
+                ctx.sample(format!(
+                    "{name}: {} -> offset {:?} delay {:?}",
+                    quad_trace("w", t),
+                    got.first().map(|r| r.offset),
+                    got.first().and_then(|r| r.delay)
+                ));
             }
         }
     }
@@ -513,7 +628,11 @@ fn run_two_way(ctx: &Ctx, b: &[u64]) {
             let t = [b[w[0]], b[w[1]], b[w[2]], b[w[3]]];
             match common::catch(|| two_way_once(&mut r, t)) {
                 Err(e) => {
-                    ctx.violation("C05:panic", format!("wrapper panicked: {e}"), quad_trace("w", t));
+                    ctx.violation(
+                        "C05:panic",
+                        format!("wrapper panicked: {e}"),
+                        quad_trace("w", t),
+                    );
                     r = rig();
                 }
                 Ok(got) => {
@@ -525,7 +644,11 @@ fn run_two_way(ctx: &Ctx, b: &[u64]) {
                         distinct.push(common::hash_of(&("w", t)));
                     }
                     if x % 60_013 == 1 {
-                        ctx.sample(format!("two-way {} -> {:?}", quad_trace("w", t), got.first().map(|r| (r.offset, r.delay))));
+                        ctx.sample(format!(
+                            "two-way {} -> {:?}",
+                            quad_trace("w", t),
+                            got.first().map(|r| (r.offset, r.delay))
+                        ));
                     }
                 }
             }
@@ -544,7 +667,11 @@ fn run_one_way(ctx: &Ctx, b: &[u64]) {
         for &local in b {
             match common::catch(|| one_way_once(&mut r, remote, local)) {
                 Err(e) => {
-                    ctx.violation("C05:panic", format!("one-way wrapper panicked: {e}"), format!("o;{remote:016x},{local:016x}"));
+                    ctx.violation(
+                        "C05:panic",
+                        format!("one-way wrapper panicked: {e}"),
+                        format!("o;{remote:016x},{local:016x}"),
+                    );
                     r = rig();
                 }
                 Ok(got) => {
@@ -577,7 +704,12 @@ struct PacketRig {
 
 fn packet_rig() -> PacketRig {
     let log: Log = Arc::new(Mutex::new(Vec::new()));
-    let wrapper = Wrapper::new(LogClock { log: log.clone() }, SynchronizationConfig::default(), ()).expect("wrapper");
+    let wrapper = Wrapper::new(
+        LogClock { log: log.clone() },
+        SynchronizationConfig::default(),
+        (),
+    )
+    .expect("wrapper");
     let two = wrapper.add_source(SRC, SourceConfig::default());
     let (source, _actions) = NtpSource::new(
         "192.0.2.7:123".parse().unwrap(),
@@ -589,7 +721,11 @@ fn packet_rig() -> PacketRig {
         Arc::new(RwLock::new(Default::default())),
         Arc::new(Mutex::new(Default::default())),
     );
-    PacketRig { log, _wrapper: wrapper, source }
+    PacketRig {
+        log,
+        _wrapper: wrapper,
+        source,
+    }
 }
 
 const ROOT_DELAY_SHORT: [u8; 4] = [0, 1, 0x80, 0];
@@ -633,8 +769,15 @@ fn judge_packet(t: [u64; 4], got: &[Rec]) -> Vec<(&'static str, String)> {
     if let Some(r) = got.first() {
         let rd = (u32::from_be_bytes(ROOT_DELAY_SHORT) as i64) << 16;
         let rp = (u32::from_be_bytes(ROOT_DISP_SHORT) as i64) << 16;
-        if r.root_delay != rd || r.root_dispersion != rp || r.leap != NtpLeapIndicator::NoWarning || r.precision != -20 {
-            out.push(("C05:packet-fields", format!("root delay/dispersion/leap/precision not taken from the answer: {r:?}")));
+        if r.root_delay != rd
+            || r.root_dispersion != rp
+            || r.leap != NtpLeapIndicator::NoWarning
+            || r.precision != -20
+        {
+            out.push((
+                "C05:packet-fields",
+                format!("root delay/dispersion/leap/precision not taken from the answer: {r:?}"),
+            ));
         }
     }
     out
@@ -654,7 +797,11 @@ fn run_packet(ctx: &Ctx, b: &[u64]) {
                 let t = [b[w[0]], b[w[1]], b[w[2]], b[w[3]]];
                 match common::catch(|| packet_once(&mut r, t)) {
                     Err(e) => {
-                        ctx.violation("C05:panic", format!("source panicked: {e}"), quad_trace("p", t));
+                        ctx.violation(
+                            "C05:panic",
+                            format!("source panicked: {e}"),
+                            quad_trace("p", t),
+                        );
                         r = packet_rig();
                     }
                     Ok(Err(e)) => {
@@ -670,7 +817,11 @@ fn run_packet(ctx: &Ctx, b: &[u64]) {
                             distinct.push(common::hash_of(&("p", t)));
                         }
                         if x % 1_009 == 3 {
-                            ctx.sample(format!("source round trip {} -> {:?}", quad_trace("p", t), got.first().map(|r| (r.offset, r.delay))));
+                            ctx.sample(format!(
+                                "source round trip {} -> {:?}",
+                                quad_trace("p", t),
+                                got.first().map(|r| (r.offset, r.delay))
+                            ));
                         }
                     }
                 }
@@ -686,7 +837,10 @@ fn run_packet(ctx: &Ctx, b: &[u64]) {
 
 fn replay(ctx: &Ctx, trace: &str) -> String {
     let (kind, rest) = trace.split_once(';').unwrap_or(("", ""));
-    let vals: Vec<u64> = rest.split(',').filter_map(|s| u64::from_str_radix(s.trim(), 16).ok()).collect();
+    let vals: Vec<u64> = rest
+        .split(',')
+        .filter_map(|s| u64::from_str_radix(s.trim(), 16).ok())
+        .collect();
     match (kind, vals.len()) {
         ("w", 4) => {
             let t = [vals[0], vals[1], vals[2], vals[3]];
@@ -701,7 +855,10 @@ fn replay(ctx: &Ctx, trace: &str) -> String {
                     for (c, w) in &v {
                         ctx.violation(c, w.clone(), trace);
                     }
-                    format!("{got:?} violations={:?}", v.iter().map(|x| x.0).collect::<Vec<_>>())
+                    format!(
+                        "{got:?} violations={:?}",
+                        v.iter().map(|x| x.0).collect::<Vec<_>>()
+                    )
                 }
             }
         }
@@ -720,7 +877,10 @@ fn replay(ctx: &Ctx, trace: &str) -> String {
                         for (c, w) in &v {
                             ctx.violation(c, w.clone(), trace);
                         }
-                        format!("{got:?} violations={:?}", v.iter().map(|x| x.0).collect::<Vec<_>>())
+                        format!(
+                            "{got:?} violations={:?}",
+                            v.iter().map(|x| x.0).collect::<Vec<_>>()
+                        )
                     }
                 }
             })
@@ -737,7 +897,10 @@ fn replay(ctx: &Ctx, trace: &str) -> String {
                     for (c, w) in &v {
                         ctx.violation(c, w.clone(), trace);
                     }
-                    format!("{got:?} violations={:?}", v.iter().map(|x| x.0).collect::<Vec<_>>())
+                    format!(
+                        "{got:?} violations={:?}",
+                        v.iter().map(|x| x.0).collect::<Vec<_>>()
+                    )
                 }
             }
         }
@@ -766,7 +929,13 @@ fn check() {
     ));
     ctx.assume("T1..T4 are taken modulo 2^64 and a difference is read as the signed 64-bit value of the wrapped subtraction (the representable interpretation across an era boundary)");
     ctx.assume("the halving may round an odd sum either way (|2*offset - sum| <= 1)");
-    ctx.note("alphabet", &b.iter().map(|x| format!("{x:#x}")).collect::<Vec<_>>().join(" "));
+    ctx.note(
+        "alphabet",
+        &b.iter()
+            .map(|x| format!("{x:#x}"))
+            .collect::<Vec<_>>()
+            .join(" "),
+    );
     run_named(&ctx);
     run_two_way(&ctx, &b);
     run_one_way(&ctx, &b);
